@@ -55,7 +55,7 @@ def main(chk):
         else:
             ok += 1
             if k % 397 == 0:
-                chk.sample({'expression': rec['e'], 'train_value_of_probe': rec['train']})
+                chk.sample({'expression': rec['e'], 'train_value_of_probe': json.dumps(rec['train'])[:400] + ' ...'})
     chk.validated(ok)
     chk.extra['expressions'] = {'universe_level': level, 'generated': len(recs), 'conforming': ok}
     # binding self-test (independent of the code under test): the comparison rejects an observation in which a stateful
